@@ -359,6 +359,12 @@ func (fr *Frame) checkPost(vs []*SVal) {
 		t := fr.evalBool(cl.Expr, env)
 		fr.oblige("post", cl.label(i), t, cl.Src)
 	}
+	for i, cl := range c.Checks {
+		cenv := *env
+		cenv.at = fr.curBlock
+		cenv.freshUnknown = true
+		fr.oblige("post", "check:"+cl.label(i), fr.evalBool(cl.Expr, &cenv), cl.Src)
+	}
 	x.curRets = nil
 	if c.HasModifies && !c.ModifiesAll {
 		allowed := map[string]bool{allocName: true}
